@@ -59,6 +59,8 @@ def opt_text(it, ctx):
         return {"word": "word", "true": "word = true", "false": "word = false"}[f], h
     if n == "rename_all":
         return 'rename_all = "camelCase"', h
+    if n == "bound":
+        return 'bound = "u8: Copy"', h
     if n == "allow_unknown_fields":
         return {"word": "allow_unknown_fields", "true": "allow_unknown_fields = true", "false": "allow_unknown_fields = false"}[f], h
     if n == "attributes":
@@ -87,7 +89,9 @@ def render(case, idx, rng):
     tp = rng.choice(TYPE_PARAMS)
     generic = shape in ("named", "named_attrs", "enum") and rng.random() < 0.34
     hostile = rng.random() < 0.5
-    g = "<%s>" % tp if generic else ""
+    # half of the generic receivers also carry a lifetime with the most common name there is
+    lifetime = generic and rng.random() < 0.5
+    g = ("<'a, %s>" % tp if lifetime else "<%s>" % tp) if generic else ""
     bare = "R%d" % idx
     name = bare + g
     helpers = []
@@ -167,6 +171,9 @@ def render(case, idx, rng):
             # the parameter is used by an optional member, so that the derive has to bound it
             fields.append("    pub %s: %s<%s>," % (pool[6], OPTION, tp))
             fnames.append(pool[6])
+        if lifetime:
+            fields.append("    #[darling(skip)] pub %s: ::core::marker::PhantomData<&'a ()>," % pool[7])
+            fnames.append(pool[7])
         if shape == "named_attrs":
             fields.append("    pub attrs: %s<::syn::Attribute>," % VEC)
             fnames.append("attrs")
@@ -201,11 +208,23 @@ def render(case, idx, rng):
                 t, h = opt_text(it, {"me": "%d_%s_%d" % (idx, key, k), "self": name, "derive": d, "g": g})
                 vo.append(t)
             st = case["v1style"] if key == "v1" else "unit"
-            sfx = {"unit": "", "newtype": "(%s)" % STRING, "struct": " { %s: %s, #[darling(default)] %s: u8 }" % (pool[3], STRING, pool[4]),
+            # the field of a struct variant carries the options the specification put on it
+            vfo = []
+            if st == "struct" and key == "v1":
+                for k, it in enumerate(case.get("f1", [])):
+                    t, h = opt_text(it, {"me": "%d_vf_%d" % (idx, k), "ft": STRING, "src": STRING, "dt": STRING, "self": name, "derive": d, "g": g})
+                    if it["name"] in ("flatten", "multiple"):
+                        return None           # would need another field type; covered by the struct receivers
+                    vfo.append(t)
+                    helpers += h
+            vfa = ("#[darling(%s)] " % ", ".join(vfo)) if vfo else ""
+            sfx = {"unit": "", "newtype": "(%s)" % STRING, "struct": " { %s%s: %s, #[darling(default)] %s: u8 }" % (vfa, pool[3], STRING, pool[4]),
                    "tuple2": "(%s, u8)" % STRING, "tuple0": "()", "struct0": " {}"}[st]
             vs.append("    %s%s%s," % (("#[darling(%s)] " % ", ".join(vo)) if vo else "", vn[vi], sfx))
         if generic:
             vs.append("    %s(%s)," % (vn[2], tp))
+        if lifetime:
+            vs.append("    #[darling(skip)] %s(::core::marker::PhantomData<&'a ()>)," % vn[3])
         derives = "#[derive(Debug, Clone, ::darling::%s)]" % d
         body = "pub enum %s {\n%s\n}" % (name, "\n".join(vs))
         if needs_default:
